@@ -260,6 +260,8 @@ def run(ctx, prog, res):
         for t in tests:
             kind = flow.call_name(t).split("_from_")[-1]
             fp = [pipeline(flt, a) for a in t["args"][1:]]
+            if not all(x[1] for x in fp):
+                continue  # explicit bounds: compared below, sub-case by sub-case
             match = None
             why = "no next_change_from_%s call" % kind
             for h in hints:
@@ -296,6 +298,75 @@ def run(ctx, prog, res):
             r6.check(match is not None, {"selector": flt.impl.get("self", "").split("::")[-1], "filter_tests": "is_open_from_" + kind, "hint_computes": "next_change_from_%s on the same pipeline" % kind, "stages": [s[0] for s in fp[0][1]]},
                      "C02.R6:%s:%s" % (flt.impl.get("self", "").split("::")[-1], kind),
                      "%s: the filter tests is_open_from_%s on a generated sequence, but the hint does not compute next_change_from_%s from the same sequence (%s)" % (flt.impl.get("self", "").split("::")[-1], kind, kind, why), lib.where_of(hnt))
+    # explicit sub-cases: where the hint singles out a sub-case of a variant and computes its bounds from
+    # explicit dates, a filter that decides this variant with the interval helpers must test the same
+    # explicit bounds under the same sub-case (otherwise the two disagree on that sub-case)
+    for flt in [f for f in prog.fns.values() if f.crate == lib.OH and f.impl and (f.impl.get("trait") or "").endswith("DateFilter") and f.name == "filter"]:
+        hnts = [f for f in prog.fns.values() if f.impl and f.impl.get("id") == flt.impl.get("id") and f.name == "next_change_hint"]
+        if len(hnts) != 1:
+            continue
+        hnt = hnts[0]
+        def helper_calls(f, prefix):
+            out = []
+            for _, t in f.calls():
+                if re.match(re.escape(DFM) + prefix + r"_from_(bounds|intervals)", flow.call_name(t)):
+                    args = [flow.shape(f, a, depth=12) for a in t["args"][1:]]
+                    explicit = all(not pipeline(f, a)[1] for a in t["args"][1:])
+                    variants = set(re.findall(r"p1@(\w+)", " ".join(args)))
+                    out.append((t, args, explicit, variants))
+            return out
+        fc, hc = helper_calls(flt, "is_open"), helper_calls(hnt, "next_change")
+        for t, args, explicit, variants in hc:
+            if not explicit:
+                continue
+            same_variant = [c for c in fc if c[3] & variants]
+            tname = flt.impl.get("self", "").split("::")[-1]
+            if not same_variant:
+                r6.ok({"selector": tname, "variant": sorted(variants), "hint": "explicit bounds", "filter": "decided without the interval helpers (not compared)"})
+                continue
+            norm = lambda xs: [x.replace("@Continue.0", "@Some.0") for x in xs]  # `?` and `if let Some` unwrap the same value
+            twin = [c for c in same_variant if c[2] and norm(c[1]) == norm(args)]
+            n_pairs += 1
+            r6.check(bool(twin), {"selector": tname, "variant": sorted(variants), "explicit_sub_case": "same bounds in filter and hint"}, "C02.R6:%s:explicit:%s" % (tname, "+".join(sorted(variants))),
+                     "%s: the hint singles out a sub-case of %s and computes its bounds from explicit dates (%s), but the filter tests that variant only through generated yearly sequences: the two disagree on the sub-case (e.g. a start with a fixed year and a year-less end)" % (tname, sorted(variants), args[0][:120]), lib.where_of(hnt, t))
+    # inclusive bounds: the interval helpers build `start..=end` and answer `end + 1 day`; a date built
+    # with the literal day 1 of a following month is an exclusive bound and is only a valid end after pred_opt
+    import terms as _terms
+    n_ends = 0
+    for f in prog.fns.values():
+        if f.crate != lib.OH or f.from_expansion:
+            continue
+        for _, t in f.calls():
+            if not re.match(re.escape(DFM) + r"(is_open|next_change)_from_bounds$", flow.call_name(t)) or len(t["args"]) < 3:
+                continue
+            if pipeline(f, t["args"][2])[1]:
+                continue  # generated sequence: its constructors are compared above
+            n_ends += 1
+            sh = flow.shape(f, t["args"][2], depth=12)
+            try:
+                tree = _terms.parse(sh)
+            except _terms.TermError:
+                continue
+            bad = []
+
+            def walk(n, under_pred):
+                if n[0] == "app":
+                    nm_ = n[1].split("::")[-1]
+                    if nm_ == "from_ymd_opt" and len(n[2]) == 3 and n[2][2] == ("int", 1) and not under_pred:
+                        # literal day 1: fine as an end only when month and year are the selector's own, unshifted
+                        shifted = any(x[0] == "app" and x[1].split("::")[-1] in ("Add", "AddWithOverflow", "Rem") for x in _terms.leaves(n[2][1], lambda y: y[0] == "app") + _terms.leaves(n[2][0], lambda y: y[0] == "app"))
+                        if shifted:
+                            bad.append(n)
+                    for a in n[2]:
+                        walk(a, under_pred or nm_ == "pred_opt")
+                elif n[0] in ("proj", "cast"):
+                    walk(n[1], under_pred)
+                elif n[0] == "agg":
+                    for _, a in n[2]:
+                        walk(a, under_pred)
+            walk(tree, False)
+            r6.check(not bad, {"fn": f.id.split("::")[-1], "explicit_end_bound": "inclusive"}, "C02.R6:inclusive-end:%s" % f.id,
+                     "%s passes the first day of a following month as an (inclusive) end bound: the interval helpers report the change one day late (%s)" % (f.id, sh[:160]), lib.where_of(f, t))
     r6.floor(3)
 
     # R7 -------------------------------------------------------------------------------------
